@@ -86,7 +86,9 @@ class CEmitter:
                 return i[1] + "_option"
             if i[0] == "slice":
                 return "Option%sView%s" % (C_NAME[i[1]], "Mut" if i[2] else "")
-            if i[0] == "str":
+            if i[0] == "oslice":
+                return "Option%sViewMut" % C_NAME[i[1]]
+            if i[0] in ("str", "ostr"):
                 return "OptionString16View" if i[1] == "u16" else "OptionStringView"
             if i[0] == "strs":
                 return "OptionStrings16View" if i[1] == "u16" else "OptionStringsView"
